@@ -200,6 +200,9 @@ def run(ctx):  # noqa: C901, PLR0912, PLR0915
         if any(call_name(c) == 'float' for c in n.calls()):
             for bn in gph.nodes:
                 if bn.kind == 'branch' and bn.test is not None and gph.dominates(bn, n):
+                    if any(call_name(c_) in ('replace', 'lower', 'casefold', 'upper', 'sub', 'translate', 'match', 'fullmatch',
+                                             'search') for c_ in ast.walk(bn.test) if isinstance(c_, ast.Call)):
+                        continue   # compared after normalising case / white space, or by a pattern
                     lit += [k.value for k in ast.walk(bn.test) if isinstance(k, ast.Constant) and isinstance(k.value, str)
                             and '=' in k.value and k.value != '=']
     ctx.ob('C17.R2', 'weight found for every spelling', not lit,
